@@ -47,7 +47,7 @@ func c01() []*Ob {
 	docsWrite := OnField(Callee(fwWrite), "frac.ActiveWriter", "docs")
 	metaWrite := OnField(Callee(fwWrite), "frac.ActiveWriter", "meta")
 	return []*Ob{
-		{Prop: "C01", ID: "C01.1", Engine: "ORDER+DOM", Floor: 4,
+		{Prop: "C01", ID: "C01.1", Engine: "ORDER+DOM", Floor: 2,
 			Desc: "ActiveWriter.Write: the docs block is written (and synced) before the meta block; the meta write is only reached when the docs write returned err==nil; SetExt1/SetExt2 on the meta header precede the meta write",
 			Check: func(c *Ctx) {
 				fn := c.Fn(awWrite)
@@ -81,7 +81,7 @@ func c01() []*Ob {
 					}
 				}
 			}},
-		{Prop: "C01", ID: "C01.9", Engine: "LOCK", Floor: 2,
+		{Prop: "C01", ID: "C01.9", Engine: "LOCK", Floor: 1,
 			Desc: "one bulk, one hold: ActiveWriter.Write performs the docs write and the meta write under a single hold of the writer's mutex, so docs blocks and meta blocks are appended in the same order (Replay derives docs offsets by summing Ext1 in meta order; a crash between two bulks' meta writes must not leave an orphan docs block in the middle of the file)",
 			Check: func(c *Ctx) {
 				fn := c.Fn(awWrite)
@@ -123,7 +123,7 @@ func c01() []*Ob {
 					}
 				}
 			}},
-		{Prop: "C01", ID: "C01.2", Engine: "ORDER+ACK+DOM", Floor: 4,
+		{Prop: "C01", ID: "C01.2", Engine: "ORDER+ACK+DOM", Floor: 2,
 			Desc: "FileWriter.Write: WriteAt precedes enqueueing the sync request, which precedes the wait; the only success return that skips the wait is under skipSync; otherwise the returned error is the value received from the sync loop",
 			Check: func(c *Ctx) {
 				fn := c.Fn(fwWrite)
@@ -182,7 +182,7 @@ func c01() []*Ob {
 					c.Violation("ack:"+fwWrite+":sync-result", rp.Ret.Pos(), "FileWriter.Write can acknowledge (error operand %s) without waiting for the sync loop's result and not under skipSync", Short(rp.Val.String()))
 				}
 			}},
-		{Prop: "C01", ID: "C01.3", Engine: "ORDER+PROV", Floor: 3,
+		{Prop: "C01", ID: "C01.3", Engine: "ORDER+PROV", Floor: 2,
 			Desc: "FileWriter.syncLoop: per iteration the waiter queue is snapshotted before Sync(), Sync() precedes every notification, every notified channel comes from that snapshot and receives Sync's result",
 			Check: func(c *Ctx) {
 				fn := c.Fn("(*frac.FileWriter).syncLoop")
@@ -250,7 +250,7 @@ func c01() []*Ob {
 				// the queue is replaced under the same lock hold (a store to fs.queue before Sync)
 				PrecedeI(c, fn, FieldStore("frac.FileWriter", "queue"), "reset of fs.queue", CallSel(syncM), "ws.Sync()")
 			}},
-		{Prop: "C01", ID: "C01.4", Engine: "ACK", Floor: 7,
+		{Prop: "C01", ID: "C01.4", Engine: "ACK", Floor: 4,
 			Desc: "ack provenance: at every hop GrpcV1.Bulk -> doBulk -> FracManager.Append -> proxyFrac.Append -> Active.Append -> ActiveWriter.Write -> FileWriter.Write, a maybe-nil error return is dominated by the callee's err==nil; Active.Append enqueues the index task only after the write succeeded; the writeSyncer behind FileWriter is an *os.File",
 			Check: func(c *Ctx) {
 				hops := []struct{ fn, callee string }{
@@ -303,7 +303,7 @@ func c01() []*Ob {
 					c.Undecided("prov:writeSyncer:none", token.NoPos, "no construction of frac.writeSyncer found")
 				}
 			}},
-		{Prop: "C01", ID: "C01.6", Engine: "ERRFLOW+TRUNC(ORDER+PROV+OWN)", Floor: 5,
+		{Prop: "C01", ID: "C01.6", Engine: "ERRFLOW+TRUNC(ORDER+PROV+OWN)", Floor: 2,
 			Desc: "Replay is tolerant and consistent with appending: io.EOF from ReadDocBlock ends the log (no error, no fatal sink), other errors are returned; before every success return both files are truncated to the replayed positions and the FileWriter append offsets are re-based there (otherwise the next append lands behind a torn tail / orphan block and the next replay misreads the files)",
 			Check: func(c *Ctx) {
 				fn := c.Fn("(*frac.Active).Replay")
@@ -485,7 +485,7 @@ func c01() []*Ob {
 					c.Undecided("trunc:extract:"+p, fn.Pos(), "%s", p)
 				}
 			}},
-		{Prop: "C01", ID: "C01.8", Engine: "PROV(verbatim error)", Floor: 4,
+		{Prop: "C01", ID: "C01.8", Engine: "PROV(verbatim error)", Floor: 2,
 			Desc: "short reads reach Replay: ReadLimiter.ReadAt, DocBlocksReader.getDocBlockLen and ReadDocBlock return the error of the underlying ReadAt verbatim on every path after the read (Replay recognises the torn tail only by err == io.EOF)",
 			Check: func(c *Ctx) {
 				for _, it := range []struct {
@@ -544,7 +544,7 @@ func c01() []*Ob {
 		{Prop: "C01", ID: "C01.7", Engine: "FILESTATE", Floor: 10,
 			Desc:  "loader totality on the active-fraction file sets: no crash prefix of fraction creation, sealing or release makes the loader reach a fatal sink (the store always comes back up)",
 			Check: func(c *Ctx) { fileStateObligations(c, "C01") }},
-		{Prop: "C01", ID: "C01.5", Engine: "PROV+OWN", Floor: 3,
+		{Prop: "C01", ID: "C01.5", Engine: "PROV+OWN", Floor: 2,
 			Desc: "fsync can be switched off only by the command line: skipSync parameters derive from conf.SkipFsync, which is stored only in package cmd/seq-db (and its initializer)",
 			Check: func(c *Ctx) {
 				isSkipGlobal := func(v ssa.Value) bool {
